@@ -157,6 +157,8 @@ def run(ctx, rep):
     rep.rule("R7.10", "the budget statuses rest on a counter that counts every evaluation (also when fun is None) (see C05 R5.2)")
     from . import c05
     c05.r52(ctx, Renamed(rep, to="R7.10"))
+    rep.rule("R7.11", "status 0 means the documented final radius was reached: a derived radius_final / threshold keeps its documented relation to the supplied partner (see C19 R19.3)")
+    c19.r193(ctx, Renamed(rep, to="R7.11"), ctx.func(c19.OPT_FUNC), ctx.func(c19.CST_FUNC), c19.enum_tables(ctx))
 
 
 def enum_members(ctx):
@@ -797,3 +799,41 @@ def _joined(v):
     if isinstance(v, ast.Constant):
         return v.value
     return norm(v)
+
+
+def r712(ctx, rep, rule="R7.12"):
+    """the four internal stop exceptions are unrelated classes: if one were a
+    subclass of another, the handler of the base class (listed first in every
+    chain) would also catch it and issue the wrong status"""
+    names = ("MaxEvalError", "TargetSuccess", "CallbackSuccess", "FeasibleSuccess")
+    classes = {n: ctx.repo.classes.get(n) for n in names}
+    if any(c is None for c in classes.values()):
+        raise AnalysisError(f"stop exception classes not found: {[n for n, c in classes.items() if c is None]}")
+
+    def ancestors(c, seen=()):
+        out = set()
+        for b in c.bases:
+            b = b.split(".")[-1]
+            out.add(b)
+            bc = ctx.repo.classes.get(b)
+            if bc is not None and b not in seen:
+                out |= ancestors(bc, seen + (b,))
+        return out
+    for n, c in classes.items():
+        anc = ancestors(c)
+        rel = sorted(set(names) & anc)
+        desc = f"{n}({', '.join(c.bases)})"
+        if rel:
+            rep.bad(rule, desc)
+            rep.finding(rule, n, f"class {n}({', '.join(c.bases)})", c.node.lineno, f"{n} is a subclass of {rel}: every `except {rel[0]}` clause (which precedes `except {n}` in the handler chains) catches it and reports the status of {rel[0]}", file=c.module.relpath)
+        else:
+            rep.ok(rule, desc + " is unrelated to the other stop exceptions")
+
+
+_old_run07 = run
+
+
+def run(ctx, rep):  # noqa: F811
+    _old_run07(ctx, rep)
+    rep.rule("R7.12", "the internal stop exceptions are pairwise unrelated classes")
+    r712(ctx, rep)
